@@ -206,6 +206,12 @@ impl ScriptedAsyncRead {
     }
 }
 
+thread_local! {
+    /// bytes handed out by each completed read of the ScriptedAsyncRead sources of this thread (the adapter owns its
+    /// source and offers no way to get it back, so the log lives here); cleared by the monitor before a run
+    pub static ASYNC_READ_LOG: std::cell::RefCell<Vec<usize>> = std::cell::RefCell::new(Vec::new());
+}
+
 impl futures::io::AsyncRead for ScriptedAsyncRead {
     fn poll_read(mut self: Pin<&mut Self>, cx: &mut Context<'_>, buf: &mut [u8]) -> Poll<io::Result<usize>> {
         let p = self.polls;
@@ -215,7 +221,11 @@ impl futures::io::AsyncRead for ScriptedAsyncRead {
             cx.waker().wake_by_ref();
             return Poll::Pending;
         }
-        Poll::Ready(self.inner.do_read(buf))
+        let r = self.inner.do_read(buf);
+        if let Ok(n) = &r {
+            ASYNC_READ_LOG.with(|l| l.borrow_mut().push(*n));
+        }
+        Poll::Ready(r)
     }
 }
 
